@@ -537,6 +537,13 @@ func conRun(c conCase) *pbt.Fail {
 	if v != nil && rerr != nil {
 		return pbt.Failf("result-both", "Result() returns both a value and an error")
 	}
+	if v != nil && rerr == nil {
+		// a session that completes does so with the result of the in-order run, however the calls that delivered its
+		// messages overlapped (all randomness of the party comes from its tape, in round order, under the handler lock)
+		if b, err := proto.ResultBytes(v); err == nil && !bytes.Equal(b, rec.result) {
+			return pbt.Failf("wrong-result:concurrent", "the session completed under concurrent delivery with a result that differs from the in-order run")
+		}
+	}
 	if stopped && !ended {
 		return pbt.Failf("stop-does-not-end-session", "Stop() was called but the session is still running")
 	}
